@@ -19,6 +19,7 @@ import GoZero.Base.Trace
 import GoZero.C20.Spec
 import GoZero.C20.WfDec
 import GoZero.C20.Scan
+import GoZero.C20.Layout
 namespace GoZero.C20
 
 open GoZero
@@ -44,7 +45,7 @@ def parseTokWord (w : String) : Option Tok :=
 def parseTokWords (ws : List String) : Option (List Tok) := ws.mapM parseTokWord
 
 def isMarker (w : String) : Bool :=
-  w == "T1" || w == "A1" || w == "T2" || w == "A2" || w == "OUT1" || w == "OUT2"
+  w == "T1" || w == "A1" || w == "T2" || w == "A2" || w == "OUT1" || w == "OUT2" || w == "LAY"
 
 def isKvWord (w : String) : Bool :=
   w.startsWith "lex2=" || w.startsWith "out="
@@ -223,6 +224,76 @@ def coverSlots (r : Report) (cfg : List String) : Report := Id.run do
     | _ => pure ()
   return r
 
+
+/-! ### round 5: blank lines between top-level statements (statement-level model of AST.Format, Layout.lean) -/
+
+/-- `idx:d,idx:d` -/
+def parseBlank (w : String) : Option (List (Nat × Nat)) :=
+  if w == "-" then some [] else
+  (w.splitOn ",").mapM fun e =>
+    match e.splitOn ":" with
+    | [a, b] => match a.toNat?, b.toNat? with
+      | some x, some y => some (x, y)
+      | _, _ => none
+    | _ => none
+
+/-- index (among the non-comment tokens) of the first token of every statement -/
+def stmtStarts : Nat → Api → List Nat
+  | _, [] => []
+  | n, s :: r => n :: stmtStarts (n + (printStmt s).length) r
+
+def showNats (l : List Nat) : String := ",".intercalate (l.map toString)
+
+/-- cover classes: dropped statements at the places the look-ahead of AST.Format walks over; and the model of the loop
+never reads outside the statement list (theorem astFormat_never_crashes, evaluated) -/
+def coverDrops (r : Report) (sec line : Nat) (m1 : Api) : Report := Id.run do
+  let mut r := r
+  if Layout.crashes (Layout.astFormat (m1.map Layout.stOf)) then
+    r := r.mismatch sec line "AST.Format model: no index outside a.Stmts" "the model reads outside the statement list"
+  -- dropped statements at the places the look-ahead of AST.Format walks over
+  let sts := m1.map Layout.stOf
+  let rec classes (l : List Layout.St) (r : Report) : Report :=
+    match l with
+    | [] => r
+    | s :: q =>
+      let r := if s.k == .importLit && !s.empty then
+          (match q.dropWhile (·.empty) with
+           | [] => if q.isEmpty then r.addCover "import-literal-is-last" else r.addCover "import-literal-then-only-dropped"
+           | t :: _ => if q.head?.map (·.empty) == some true then
+                 (if t.k == .importLit then r.addCover "import-literal-dropped-import-literal" else r.addCover "import-literal-dropped-other")
+               else r)
+        else r
+      classes q r
+  r := classes sts r
+  if (sts.head?.map (·.empty)) == some true then r := r.addCover "dropped-statement-first"
+  if (sts.getLast?.map (·.empty)) == some true then r := r.addCover "dropped-statement-last"
+  if !sts.isEmpty && sts.all (·.empty) then r := r.addCover "all-statements-dropped"
+  return r
+
+/-- Correspondence C-lay: for a comment-free program the real output has the first token on line 1, in front of every
+further top-level statement the distance that `Layout.textLayout` computes from the index loop of AST.Format, and its
+number of line feeds at the end.  `m1` = the program that was formatted, `m2` = the model AST of the output. -/
+def runLayout (r : Report) (sec line : Nat) (obs : List String) (m1 m2 : Api) (ncm : Nat) (oddLit : Bool) : Report := Id.run do
+  let mut r := r
+  let lay := sectionAfter obs "LAY"
+  if lay.isEmpty then return r.mismatch sec line "layout observation (LAY)" "missing"
+  if ncm > 0 || oddLit then return r.addCover "layout-not-judged-comments"
+  match parseBlank (kvStr lay "blank" "?") with
+  | none => return r.mismatch sec line "layout observation (blank=)" (joinSp lay)
+  | some blank =>
+  let exp := Layout.textLayout m1
+  let starts := stmtStarts 0 m2
+  let gaps := (starts.drop 1).map fun i => ((blank.lookup i).getD 1)
+  let real : Layout.TextLayout := ⟨kvNat lay "first", gaps, kvNat lay "trail"⟩
+  if real != exp then
+    r := r.mismatch sec line s!"layout: first={exp.first} gaps={showNats exp.gaps} trail={exp.trail}"
+      s!"layout: first={real.first} gaps={showNats real.gaps} trail={real.trail}"
+  else
+    r := r.addCover "layout-equal"
+    if exp.gaps.contains 1 then r := r.addCover "layout-import-literals-adjacent"
+    if exp.trail == 1 then r := r.addCover "layout-import-literal-last"
+  return r
+
 def runFmt (r : Report) (sec : Nat) (line : Nat) (cfg : List String) (src : List Char) (obs : List String) : Report := Id.run do
   let kind := kvStr cfg "kind" "valid"
   let cls0 := kvStr cfg "class" "main"
@@ -304,6 +375,7 @@ def runFmt (r : Report) (sec : Nat) (line : Nat) (cfg : List String) (src : List
   if oddLit then r := r.addCover "control-char-in-literal"
   if oddCm then r := r.addCover "control-char-in-comment"
   if nm1.length < m1.length then r := r.addCover "dropped-empty-statement"
+  r := coverDrops r sec line m1
   if obs.contains "out=empty" then
     r := r.addCover "output-empty"
     if !nm1.isEmpty then r := r.violation sec line "formatter wrote nothing for a program with content"
@@ -349,6 +421,7 @@ def runFmt (r : Report) (sec : Nat) (line : Nat) (cfg : List String) (src : List
   else if idem != "1" then r := viol r sec line cls "idem" "formatting the result again changes it (not idempotent)"
   else r := r.addCover "idempotent"
   if dump (norm m2) == dump m2 then r := r.addCover "output-normal"
+  if !lenient then r := runLayout r sec line obs m1 m2 ncm oddLit
   return r
 
 /-- round 4: the ops that call the real code several times / with several instances / through format.File.
@@ -374,6 +447,13 @@ def runExtra (r : Report) (sec line : Nat) (op : String) (obs : List String) : R
       else r := r.addCover "again-same-ast-same-text"
   | "file" =>
     let file := kvStr obs "file"
+    -- round 5: what format.File must do is computed by the model `Layout.fileFormat` (read, Source, write)
+    let m := Layout.fileFormat (fun _ => if fmt == "ok" then .ok "OUT" else .err) ⟨fun _ => some "SRC", fun _ => true⟩ "f"
+    let mFile := if m.2.1 then "err" else "ok"
+    let mSame := b01 (m.1.read "f" == some "OUT")
+    let mKept := b01 (m.1.read "f" == some "SRC")
+    if mFile == file && (if m.2.1 then mKept == kvStr obs "kept" else mSame == kvStr obs "same") then r := r.addCover "file-model-equal"
+    else r := r.mismatch sec line s!"format.File model: file={mFile} same={mSame} kept={mKept}" (joinSp obs)
     if fmt == "ok" then
       if file != "ok" then r := r.violation sec line s!"format.File fails for a text that format.Source formats: {joinSp obs}"
       else if kvStr obs "same" != "1" then
